@@ -330,9 +330,8 @@ def _run_formula(case, kind):
     pname = cell.pname
     n_pre, n_post = math.prod(ins), math.prod(outs)
     ls = M.LastSpikes(B, n_pre, n_post)
-    d_model = cell.delays()            # the stored (dtype-rounded) initial delays
     if kind == "KSTDP":
-        check(not np.any(d_model), "setup:kstdp-delays", "KernelSTDP leg must have zero delays")
+        check(not np.any(cell.delays()), "setup:kstdp-delays", "KernelSTDP leg must have zero delays")
     w_model = cell.param()             # trained parameter, model copy (float64)
     dt_dy = M.is_dyadic(dt)
     scale_lr = (abs(hp["lr_pos"]) + abs(hp["lr_neg"])) * pairs.shape[1] * (B if red_eff == "sum" else 1)
@@ -350,8 +349,10 @@ def _run_formula(case, kind):
         d_impl = cell.delays()
         cell.step(pre, post, signal, gscale, bool_in=case.get("bool_in", True))
         ls.step(pre, post)
-        td, valid, band = M.tdelta(ls, pairs, dt, d_model)
-        exact_p = np.array([dt_dy and M.is_dyadic(d_model[p]) and d_impl[p] == d_model[p] for p in range(P)])
+        # d(t): the delays the connection actually holds when the step is taken (one-step form:
+        # a delay-learning history never compounds a rounding residue into a different branch)
+        td, valid, band = M.tdelta(ls, pairs, dt, d_impl)
+        exact_p = np.array([dt_dy and M.is_dyadic(d_impl[p]) for p in range(P)])
         amb_e = valid & (np.abs(np.nan_to_num(td)) <= band) & ~exact_p[None, :, None]
         amb_p = amb_e.any((0, 2))
         net, abssum, err = _model_step(kind, hp, red_eff, td, band, signal, gscale)
@@ -377,7 +378,7 @@ def _run_formula(case, kind):
             raise Violation(
                 "formula:step",
                 f"{what}: pos-neg of element {p} = {got[p]!r}, documented {acc[p]!r} (tol {tol[p]:.3g}); "
-                f"t_delta[b][l]={b_td} d={d_model[p]} dt={dt}",
+                f"t_delta[b][l]={b_td} d={d_impl[p]} dt={dt}",
                 {"trainer": kind, "conn": case["conn"]["kind"], "step": si})
         # no change while a side has not spiked yet: exactly zero
         silent = mask & ~acc_touched
@@ -426,7 +427,6 @@ def _run_formula(case, kind):
                 clamped_m = np.where(near, clamped_i, clamped_m)
                 cell.set_delays(clamped_i)
                 w_model = np.where(mask, clamped_m, 0.0)
-                d_model = w_model.copy()
             acc[:] = 0
             acc_abs[:] = 0
             acc_err[:] = 0
@@ -450,7 +450,7 @@ def _run_formula(case, kind):
     if case.get("f64"):
         cls.append("f64")
     nt = bool(n_c and n_a and n_silent and n_cmp_nz)
-    return {"nt": nt, "cls": cls, "amb": n_amb}
+    return {"nt": nt, "cls": cls, "amb": n_amb, "n_c": n_c, "n_a": n_a, "n_z": n_z, "n_nz": n_cmp_nz}
 
 
 # ------------------------------------------------------------------------------ legs: twin / zerodelay
@@ -587,10 +587,9 @@ def _conn_strategy(tier):
     if conv_available():
         def mk(h, w, c, f, kh, kw, s, p, d):
             kh, kw = min(kh, h + 2 * p), min(kw, w + 2 * p)
-            # keep the dilated kernel inside the padded input
-            while d * (kh - 1) + 1 > h + 2 * p or d * (kw - 1) + 1 > w + 2 * p:
+            # keep the dilated kernel inside the padded input (output size >= 1)
+            if d * (kh - 1) + 1 > h + 2 * p or d * (kw - 1) + 1 > w + 2 * p:
                 d = 1
-                break
             return {"kind": "conv", "h": h, "w": w, "c": c, "f": f, "kernel": [kh, kw],
                     "stride": [s, s], "padding": [p, p], "dilation": [d, d]}
         opts.append(st.builds(mk, small([2, 3, 4]), small([2, 3]), small([1, 2]), small([1, 2]),
@@ -708,6 +707,44 @@ def zero_case(draw, tier="quick"):
     return case
 
 
+def _small_cases(tier):
+    """Every pre/post history of length T on a single synapse (LinearDirect, one neuron, B = 1,
+    dt = 1) x every on-grid delay in {0, 1, 2} x every trainer x the four learning-rate sign
+    combinations.  All arithmetic is dyadic, so every t_delta == 0 alignment is decisive."""
+    T = 3 if tier == "quick" else 4
+    sigs = [1.0, -0.5, 2.0, -1.0]
+    for kind in TRAINERS:
+        for k in ([0] if kind == "KSTDP" else [0, 1, 2]):
+            for sp in (1.0, -1.0):
+                for sn in (0.5, -0.5):
+                    for hist in range(1 << (2 * T)):
+                        steps = []
+                        for t in range(T):
+                            stp = {"pre": [(hist >> (2 * t)) & 1], "post": [(hist >> (2 * t + 1)) & 1],
+                                   "update": True}
+                            if kind in THREE:
+                                stp["signal"], stp["scale"] = sigs[t], 0.5
+                            steps.append(stp)
+                        yield {"trainer": kind, "conn": {"kind": "direct", "shape": [1]}, "B": 1,
+                               "dt": 1.0, "lr_pos": sp, "lr_neg": sn, "tc_pos": 2.0, "tc_neg": 4.0,
+                               "inplace": False, "override": False, "kw_tensor": False, "bool_in": True,
+                               "f64": False, "wseed": 0, "dmax_steps": 2, "dmode": "grid", "draws": [k],
+                               "reduction": None, "delayed": bool(k == 0 and sp > 0), "steps": steps}
+
+
+def run_small(case) -> dict:
+    out = run_formula(case)
+    # non-trivial here: the synapse is compared at least once with a non-zero documented change
+    # (i.e. both sides have spiked within the T steps)
+    out["nt"] = bool(out["n_nz"])
+    out["cls"] = [c for c in out["cls"] if c.startswith(("trainer=", "tdelta", "both", "silent"))]
+    if out["n_c"]:
+        out["cls"].append("causal")
+    if out["n_a"]:
+        out["cls"].append("anti-causal")
+    return out
+
+
 LEGS = [
     Leg(
         name="formula", run=run_formula, strategy=lambda tier: formula_case(tier),
@@ -718,15 +755,23 @@ LEGS = [
              "element has a non-zero documented change; distinct by SHA-1 of the case",
     ),
     Leg(
+        name="small", run=run_small, enumerate=_small_cases,
+        quick_shards=6, thorough_shards=6, nt_floor=0.3,
+        rule="exhaustive: all 4^T pre/post histories of one synapse (T = 3 quick, 4 thorough) x delay "
+             "in {0, 1, 2} steps x 7 trainers x 4 learning-rate sign modes; non-trivial when both "
+             "sides spike within the T steps, so that a non-zero documented change is compared",
+        exhaustive_note="finite domain (single synapse, dyadic values) enumerated completely",
+    ),
+    Leg(
         name="twin", run=run_twin, strategy=lambda tier: twin_case(tier),
-        quick=120, thorough=1200, quick_shards=5, thorough_shards=4, nt_floor=0.3,
+        quick=150, thorough=1500, quick_shards=4, thorough_shards=4, nt_floor=0.3,
         rule="twin cells (dedicated rule vs delay-adjusted kernel rule with the exponential kernels) "
              "whose common history takes both branches, produces a non-zero update and contains a "
              "step with a still-silent side",
     ),
     Leg(
         name="zerodelay", run=run_zerodelay, strategy=lambda tier: zero_case(tier),
-        quick=120, thorough=1200, quick_shards=5, thorough_shards=4, nt_floor=0.3,
+        quick=150, thorough=1500, quick_shards=4, thorough_shards=4, nt_floor=0.3,
         rule="all delays zero; delay-adjusted rule vs plain KernelSTDP (exponential kernels) on twin "
              "cells whose common history takes both branches, produces a non-zero update and "
              "contains a step with a still-silent side",
